@@ -440,10 +440,10 @@ func runCoffProp(prop string) func(env *Env, rep *Report) {
 			cases = append(cases, genCoffCase(r, prop, reserved, prop == "C08" && i%40 == 7))
 		}
 		if prop == "C08" {
-			rep.Rule = "seeded `[FORMAT \"WCOFF\"]` programs: .text from empty to > 64 KiB, GLOBAL lists of 0..45 names of length 1..40 (including exactly 8 and 9) that are defined, undefined, declared twice, or prefixes/infixes/extensions of one another, spread over 1-4 GLOBAL statements placed before, inside and after the code, with/without [FILE] of length 0..64 (including 17, 18, 19, 36); " +
+			rep.Rule = "seeded `[FORMAT \"WCOFF\"]` programs: .text from empty to > 64 KiB, GLOBAL lists of 0..45 names of length 1..40 (including exactly 8 and 9) that are defined, undefined, declared twice, or prefixes/infixes/extensions of one another, spread over 1-4 GLOBAL statements placed before, inside and after the code, with/without [FILE] of length 0..64 (including 17, 18, 19, 36; a third of the longer ones paths with / . - and blanks), [SECTION .text] up front in a third and a [SECTION .data]/[SECTION .bss] line at a seeded place in a quarter of the programs; " +
 				"oracle: a strict COFF layout validator (machine, 3 section headers, every pointer/size inside the file and non-overlapping, symbol count = records incl. auxiliaries, string-table length = bytes remaining = file end, long-name offsets NUL-terminated inside the table) plus Go's debug/pe reading the same sections and symbol names; distinct = (labels, globals bucket, statements, file-name bucket, size) cells"
 		} else {
-			rep.Rule = "seeded 32-bit programs from the size-clean pool with labels; a seeded subset and order of the labels is declared GLOBAL (before/after/inside the definitions, in 1-4 statements, names 1..40 long incl. 8/9 and prefix/infix families), with undefined and doubly declared names and [FILE] names of length 0..64; each source is assembled with and without the FORMAT line; " +
+			rep.Rule = "seeded 32-bit programs from the size-clean pool with labels; a seeded subset and order of the labels is declared GLOBAL (before/after/inside the definitions, in 1-4 statements, names 1..40 long incl. 8/9 and prefix/infix families), with undefined and doubly declared names and [FILE] names of length 0..64 (bare names and paths), [SECTION] lines as in C08; each source is assembled with and without the FORMAT line; " +
 				"oracle: .text == flat image; the walker gives true label offsets on the flat image; every defined GLOBAL appears exactly once as a class-2 symbol of section 1 with value = offset, long names resolve through the string table, defined symbols ascend by value with undefined last, the .file auxiliary record holds the [FILE] name (a prefix when longer than 18); distinct = same cells as C08"
 		}
 		outs := RunCases(env, cases)
